@@ -31,6 +31,7 @@ unsigned long sched_step, sched_switches;
 void (*sched_on_deadlock)(const char *);
 void (*sched_on_idle)(void);
 void (*sched_on_switch)(const char *, int, int);
+void (*sched_on_point)(const char *);
 
 int __real_pthread_mutex_lock(pthread_mutex_t *);
 int __real_pthread_mutex_unlock(pthread_mutex_t *);
@@ -61,12 +62,14 @@ int sched_self(void) { return sched_active ? my_slot : -1; }
 int sched_nthreads(void) { return nthr; }
 int sched_thread_finished(int s) { return thr[s].st == S_FINISHED; }
 int sched_join_count(int s) { return thr[s].joins; }
+static int runnable(int i);
 /* true if no other thread can be in the middle of a library call: all others are parked in a wait, a join, or gone */
 int sched_all_others_parked(void)
 {
 	for (int i = 0; i < nthr; i++) {
 		if (i == my_slot) continue;
 		if (thr[i].st == S_READY || thr[i].st == S_NEW || thr[i].st == S_RUNNING || thr[i].st == S_BLK_MUTEX) return 0;
+		if ((thr[i].st == S_BLK_WAIT || thr[i].st == S_BLK_JOIN || thr[i].st == S_BLK_ALL) && runnable(i)) return 0;   /* parked, but about to go on */
 	}
 	return 1;
 }
@@ -163,6 +166,7 @@ void sched_yield_to_others(const char *why)
 void sched_point(const char *why)
 {
 	if (!sched_active || my_slot < 0) return;
+	if (sched_on_point) sched_on_point(why);
 	int me = my_slot;
 	sched_step++;
 	thr[me].st = S_READY;
